@@ -635,13 +635,17 @@ class SpectrumEditScenario(Scenario):
                 grid = [lo, hi]
             why = None
             if refuse and len(grid) >= 2:
-                why = rng.choice(['unsorted', 'duplicate', 'non-positive', 'bad-method', 'bad-unit'])
+                why = rng.choice(['unsorted', 'duplicate', 'non-positive', 'bad-method', 'bad-unit', 'scalar-grid'])
                 if why == 'unsorted':
                     grid = grid[::-1]
                 elif why == 'duplicate':
                     grid = grid + [grid[-1]]
                 elif why == 'non-positive':
                     grid = [-grid[0]] + grid
+                elif why == 'scalar-grid':
+                    # "array_like or float": a single wavelength as a bare number.  Refused today; whatever happens, the object stays
+                    # a grid with one value per wavelength
+                    grid = float(grid[len(grid) // 2])
             k = {'waveunit': unit}
             if why == 'bad-unit':
                 k['waveunit'] = 'furlong'
